@@ -70,7 +70,7 @@ Definition adapt (C : circ) (pmap : list (list target)) (row : list Qc) : circ :
 (* What adapt_circuit does with an edge target given as (source, target, idx): it looks the edge up WITH idx but hands only
    (source, target, {var: val}) to CircuitTemplate.update_var, which calls get_edge(source, target) = parallel edge 0.
    TW j is the j-th declared edge; first_same es j is the first declared edge with the same source and target.
-   fx = true: idx is passed through (proposed repair). *)
+   fx = true: idx is passed through (repair D155, landed). *)
 Definition st (e : nat * nat * Qc) : nat * nat := (fst (fst e), snd (fst e)).
 Fixpoint index_st (p : nat * nat) (l : list (nat * nat)) : nat :=
   match l with
@@ -117,7 +117,7 @@ Definition grid_impl_gen (fx : bool) (C : circ) (pmap : list (list target)) (val
   | None => None
   | Some rows => let Cs := map (adapt_gen fx C pmap) rows in Some (rows, ntraj dt (assemble Cs) (map x0 Cs) 0 n)
   end.
-Definition fix_idx : bool := false.       (* the code as it is; true once the repair of the ignored idx has landed *)
+Definition fix_idx : bool := true.        (* the code as it is: repair D155 landed (idx is passed through update_var); false = before *)
 Definition grid_impl := grid_impl_gen fix_idx.
 (* Spec: every row on its own *)
 Definition grid_spec (C : circ) (pmap : list (list target)) (rows : list (list Qc)) (dt : Qc) (n : nat)
